@@ -1,5 +1,215 @@
+"""C14 -- dependency graphs are validated soundly before anything runs.
+
+proofs : coq/Props/C14.v (loader: soundness, completeness, termination, order independence; whole-project
+         validation: soundness, decision, exact roots)
+tie    : (a) `cond run` path: the scheduling engine (sched_checks.run_prop) -- the real TaskIndex.load_transitive_closure
+             on every digraph over 2 (quick) / 3 (thorough) names + an undefined one, every listing order, every root,
+             plus random defect projects, against Model/Loader.v and the property oracle;
+         (b) whole-project validation (explorer): every COND file of the project is loaded with the real
+             TaskIndex.load_all_tasks_in_cond_file (several file orders), then the real validate_all_loaded_tasks();
+             result (error kind / the exact list of roots) against Model/Loader.v validate_all and against an
+             independent oracle (reject iff a cycle or a dangling dependency exists among the loaded tasks; roots =
+             the loaded tasks nobody depends on, in dict order).
+"""
+import itertools
+import os
+import pathlib
+
+from common import pack, ser_list, ser_n, run_packed_cases, clist, setup_impl_path
 from sched_checks import run_prop
+from sched_engine import all_small_graphs, rand_dag, add_defects
+from sched_util import Case, Task, write_project, ident, task_of_ident, IMPORTS, impl
+
+
+def observe_validate(case, file_order):
+    """load every COND file (in the given order of packages) and validate; returns (keys, result)"""
+    m = impl()
+    errors = m["errors"]
+    root = write_project(case)
+    ctx = m["Context"](pathlib.Path(root))
+    idx = ctx.task_index
+    pkgs = []
+    for t in case.tasks:
+        if t.status != 0 and t.pkg not in pkgs:
+            pkgs.append(t.pkg)
+    pkgs = [pkgs[i] for i in file_order if i < len(pkgs)] + [p for i, p in enumerate(pkgs) if i not in file_order]
+    for pkg in pkgs:
+        idx.load_all_tasks_in_cond_file(pathlib.Path(pkg, "COND"))
+    keys = [task_of_ident(k) for k in idx.get_all_loaded_tasks().keys()]
+    try:
+        roots = idx.validate_all_loaded_tasks()
+        res = ("ok", [task_of_ident(r) for r in roots])
+    except errors.CyclicDependency:
+        res = ("cycle",)
+    except errors.TaskNotFound as ex:
+        res = ("notfound", int(str(ex.task_identifier).rsplit(":t", 1)[1]))
+    return keys, res
+
+
+def ser_v(res):
+    if res[0] == "ok":
+        return [0] + ser_list(ser_n, res[1])
+    if res[0] == "cycle":
+        return [1]
+    return [2, res[1]]
+
+
+def oracle_validate(case, keys, res):
+    loaded = set(keys)
+    deps = {k: case.tasks[k].deps for k in keys}
+    dangling = any(d not in loaded for k in keys for d in deps[k])
+    # cycle among loaded tasks (edges into unloaded tasks do not continue)
+    color = {}
+
+    def dfs(x):
+        color[x] = 1
+        for d in deps.get(x, []):
+            if d not in loaded:
+                continue
+            if color.get(d) == 1 or (color.get(d) is None and dfs(d)):
+                return True
+        color[x] = 2
+        return False
+
+    cyc = any(color.get(k) is None and dfs(k) for k in keys)
+    out = []
+    if res[0] == "ok":
+        if dangling or cyc:
+            out.append("validation accepted a project with %s" % ("a cycle" if cyc else "a dangling dependency"))
+        want = [k for k in keys if not any(k in deps[x] for x in keys)]
+        if res[1] != want:
+            out.append("validation reported the roots %r, the loaded tasks nobody depends on are %r" % (res[1], want))
+    elif res[0] == "cycle" and not cyc:
+        out.append("validation reported a cycle, there is none among the loaded tasks")
+    elif res[0] == "notfound" and (res[1] in loaded or not dangling):
+        out.append("validation reported t%d as not found, but %s" % (res[1], "it is loaded" if res[1] in loaded else "no dependency is dangling"))
+    return out
+
+
+def validate_part(chk, tier):
+    rng = chk.rng
+    cases = []
+    small = 3
+    for tasks in all_small_graphs(small):
+        if any(len(set(t.deps)) != len(t.deps) for t in tasks):
+            continue
+        cases.append(Case([Task(t.status, t.deps, t.kind, pkg=["", "p0", ""][i % 3] if i < small else "") for i, t in enumerate(tasks)]))
+    if tier == "quick":
+        cases = cases[:: max(1, len(cases) // 350)]
+    for _ in range(300 if tier == "quick" else 3000):
+        n = rng.randint(2, 8)
+        tasks = rand_dag(rng, n, p_edge=rng.choice([0.15, 0.3, 0.5]))
+        for _k in range(rng.choice([0, 0, 0, 1, 1, 2])):
+            add_defects(rng, tasks)
+        # whole-file loading rejects malformed tasks and duplicate dependencies while loading: keep those out
+        for t in tasks:
+            if t.status == 1:
+                t.status = 2
+            seen = []
+            for d in t.deps:
+                if d not in seen:
+                    seen.append(d)
+            t.deps = seen
+        if rng.random() < 0.2:   # an isolated cycle nobody points into
+            a = len(tasks)
+            tasks.append(Task(2, [a + 1], "command", pkg=rng.choice(["", "p0"])))
+            tasks.append(Task(2, [a], "command", pkg=rng.choice(["", "p0"])))
+        cases.append(Case(tasks))
+    exprs, wants, meta = [], [], []
+    agree = 0
+    for c in cases:
+        npk = len({t.pkg for t in c.tasks if t.status != 0})
+        for order in ([list(range(npk))] if npk <= 1 else [list(range(npk)), list(reversed(range(npk)))]):
+            try:
+                keys, res = observe_validate(c, order)
+            except Exception as e:  # pylint: disable=broad-except
+                chk.violation("impl-violation", "whole-project validation raised %s: %s on %s" % (type(e).__name__, e, c.graph_text()),
+                              {"input": {"part": "validate_all", "case": c.to_json(), "file_order": order}, "impl_observation": repr(e)}, match_key={"validate": "raise"}, size=len(c.tasks))
+                continue
+            chk.coverage["evaluations"] += 1
+            chk.count("validate_all", res[0])
+            for msg in oracle_validate(c, keys, res):
+                chk.violation("impl-violation", "whole-project validation, loaded tasks %r of %s: %s" % (keys, c.graph_text(), msg),
+                              {"input": {"part": "validate_all", "case": c.to_json(), "file_order": order}, "impl_observation": {"keys": keys, "result": list(res)}, "oracle_verdict": msg},
+                              match_key={"validate": msg.split(" ")[1]}, size=len(c.tasks) * 10 + sum(len(t.deps) for t in c.tasks))
+            tds = c.coq().rsplit(", {| c_root", 1)[0][1:]
+            exprs.append("validate_hash 400%%nat %s %s" % (tds, clist(["%d%%nat" % k for k in keys])))
+            wants.append(pack(ser_v(res)))
+            meta.append((c, order, keys, res))
+    if chk.coq.model_ok and exprs:
+        shard = 250
+        chunks = [clist(exprs[a:a + shard]) for a in range(0, len(exprs), shard)]
+        wl = [wants[a:a + shard] for a in range(0, len(exprs), shard)]
+        res_ = run_packed_cases(IMPORTS, "", chunks, wl)
+        for off, (ok, bad, raw) in zip(range(0, len(exprs), shard), res_):
+            if not ok:
+                chk.violation("correspondence", "model evaluation failed (validate_all): %s" % raw[-300:], {"theorem_or_tie": "correspondence Model/Loader.v validate_all", "coq_output": raw}, found_input=False)
+                continue
+            chk.coverage["disagreements_checked"] += len(wl[off // shard])
+            agree += len(wl[off // shard]) - len(bad)
+            for i in bad[:3]:
+                c, order, keys, r = meta[off + i]
+                chk.violation("correspondence", "Model/Loader.v validate_all and TaskIndex.validate_all_loaded_tasks disagree on %s (loaded order %r): implementation %r" % (c.graph_text(), keys, r),
+                              {"theorem_or_tie": "correspondence validate_all", "input": {"part": "validate_all", "case": c.to_json(), "file_order": order}, "impl_observation": {"keys": keys, "result": list(r)}},
+                              found_input=False, size=len(c.tasks))
+    chk.coverage["traces_validated_against_impl"] += agree
+
+
+def cli_part(chk, tier):
+    """through the command line (cli/run.py), where the closure is loaded before anything is planned: a project that
+    ran successfully is edited so that the graph BELOW an already recorded (cached) experiment becomes defective;
+    `cond run T` and `cond run --check T` must both report the matching error and execute nothing."""
+    import implrun
+    from implrun import strip_ansi
+
+    healthy = ('run_experiment(name="exp", run="echo exp >> %(log)s", deps=[":prep"])\n'
+               'run_command(name="prep", run="echo prep >> %(log)s", deps=[":base"])\n'
+               'run_command(name="base", run="echo base >> %(log)s")\n')
+    edits = [
+        ("cycle", 'deps=[":prep"])\nrun_command(name="base", run="echo base >> %(log)s")', None, "cycl"),
+    ]
+    variants = {
+        "cycle below a cached task": (healthy.replace('run_command(name="base", run="echo base >> %(log)s")', 'run_command(name="base", run="echo base >> %(log)s", deps=[":prep"])'), "cycl"),
+        "undefined dependency below a cached task": (healthy.replace('deps=[":base"]', 'deps=[":base", ":gone"]'), "gone"),
+        "duplicate dependency below a cached task": (healthy.replace('deps=[":base"]', 'deps=[":base", "//:base"]'), "more than once"),
+        "self-loop below a cached task": (healthy.replace('run_command(name="base", run="echo base >> %(log)s")', 'run_command(name="base", run="echo base >> %(log)s", deps=[":base"])'), "cycl"),
+    }
+    del edits
+    for name, (text, needle) in variants.items():
+        root = implrun.make_project({"COND": ""})
+        log = os.path.join(root, "spawn.log")
+        open(os.path.join(root, "COND"), "w").write(healthy % {"log": log})
+        r0 = implrun.run_cond(["run", "//:exp"], root, timeout=60)
+        if r0.code != 0:
+            chk.violation("correspondence", "harness: the healthy project did not run: %s" % strip_ansi(r0.out + r0.err)[-300:], {"theorem_or_tie": "cli scenario set-up"}, found_input=False)
+            continue
+        before = open(log).read()
+        open(os.path.join(root, "COND"), "w").write(text % {"log": log})
+        for argv in (["run", "//:exp"], ["run", "--check", "//:exp"], ["run", "//:exp", "--stop-early"]):
+            r = implrun.run_cond(argv, root, timeout=60)
+            chk.coverage["evaluations"] += 1
+            chk.count("cli", name)
+            out = strip_ansi(r.out + r.err)
+            after = open(log).read()
+            problems = []
+            if r.code == 0:
+                problems.append("exited 0 (%r)" % out[-200:])
+            elif needle.lower() not in out.lower():
+                problems.append("failed without naming the defect (%r expected in %r)" % (needle, out[-300:]))
+            if after != before:
+                problems.append("executed tasks: %r" % after[len(before):])
+            for msg in problems:
+                chk.violation("impl-violation", "`cond %s` on a project with a %s: %s" % (" ".join(argv), name, msg),
+                              {"input": {"part": "cli", "cond": text % {"log": "LOG"}, "argv": argv, "history": "healthy project run once (//:exp recorded), then COND edited"},
+                               "impl_observation": {"exit": r.code, "output": out[-800:]}, "oracle_verdict": msg}, match_key={"cli": name}, size=3)
+            if not problems:
+                chk.coverage["traces_validated_against_impl"] += 1
+
+
+def both_parts(chk, tier):
+    validate_part(chk, tier)
+    cli_part(chk, tier)
 
 
 def run(tier, seed, replay=None):
-    return run_prop("C14", tier, seed, replay)
+    return run_prop("C14", tier, seed, replay, extra_part=both_parts)
